@@ -14,7 +14,9 @@ PROPS["C17"] = dict(
           "CheckpointFile(READ) must return every model entry bit-identically, and the attributes/objects of every group must be exactly the model's "
           "(skipped after an other-type overwrite). Each case runs in a fork()ed child (HDF5 global state; ASan aborts are attributed to the step). "
           "non-trivial = the executed sequence has an overwrite with another shape, or writes an empty shape, or reopens the file after a write. "
-          "single: 1..3 fresh values of any kind written, file closed, read back (minimal replays for per-kind round trips)."),
+          "single: 1..3 fresh values of any kind written, file closed, read back (minimal replays for per-kind round trips)."
+          " Interleaved handles: 30 % of the write attempts on a READ handle are made with a READ handle that was created while a "
+          "MODIFY handle on the same file was open in the process."),
     assumptions=COMMON_ASSUME + [
         "system HDF5 1.10 (not sanitizer-instrumented; ASan sees its memcpy/memmove through interceptors)",
         "value names and group names are drawn from disjoint pools and contain no '/': a dataset and a group of the same name cannot coexist in HDF5",
